@@ -159,6 +159,17 @@ impl C20 {
                 );
                 return;
             }
+            // the other public route to the incidence angle
+            let ssa = climate::solar::sunsurface_angles(decl, omega, climate::solar::Location { latitude: lat, longitude: 0.0, tz: 0 }, tilt, az);
+            obs.count("surface_angles_checked_through_sunsurface_angles");
+            if !((ssa.angle as f64 - want).abs() <= tol) {
+                obs.violation(
+                    "incidence-angle:sunsurface_angles",
+                    format!("sunsurface_angles(decl {}, w {}, lat {}, tilt {}, az {}).angle = {} but the angle between sun and outward normal is {:.3}", decl, omega, lat, tilt, az, ssa.angle, want),
+                    json!({"latitude": lat, "declination": decl, "hourangle": omega, "tilt": tilt, "azimuth": az}),
+                );
+                return;
+            }
             // ray_dir_to_sun equals the sun vector of (azimuth, altitude)
             let sa = rng.dec(-180.0, 180.0, 1) as f32;
             let sh = rng.dec(0.0, 90.0, 1) as f32;
@@ -401,7 +412,7 @@ impl Property for C20 {
         "C20"
     }
     fn rule(&self) -> String {
-        "all 365 (month, day) pairs against the harness's month table; sun_position on a latitude [-66,66] x declination [-23.45,23.45] x hour-angle (-180,180) grid (quick 1 degree, thorough 0.5 degrees) compared as a direction vector (great-circle error <= 0.1 degree) with spherical astronomy whenever the true altitude exceeds 0.5 degrees; angle_sol_surf against the angle between that vector and WallGeom::normal() for random tilts/azimuths; ray_dir_to_sun; radiation identities over all 8760 hours of zonaD3.met (horizontal surface = input for altitude >= 6, tilt 180 = albedo x global and no beam, beam >= 0) and random inputs; tables: 32 zones x 9 orientations x 12 months and 14 July rows present, shaped and non-negative; for D3: July rows equal the weather file's rows, monthly table equals the radiation model summed per month to +-0.0056; non-trivial = distinct date / latitude row / hour slice / zone".into()
+        "all 365 (month, day) pairs against the harness's month table; sun_position on a latitude [-66,66] x declination [-23.45,23.45] x hour-angle (-180,180) grid (quick 1 degree, thorough 0.5 degrees) compared as a direction vector (great-circle error <= 0.1 degree) with spherical astronomy whenever the true altitude exceeds 0.5 degrees; angle_sol_surf and sunsurface_angles().angle against the angle between that vector and WallGeom::normal() for random tilts/azimuths; ray_dir_to_sun; radiation identities over all 8760 hours of zonaD3.met (horizontal surface = input for altitude >= 6, tilt 180 = albedo x global and no beam, beam >= 0) and random inputs; tables: 32 zones x 9 orientations x 12 months and 14 July rows present, shaped and non-negative; for D3: July rows equal the weather file's rows, monthly table equals the radiation model summed per month to +-0.0056; non-trivial = distinct date / latitude row / hour slice / zone".into()
     }
     fn assumptions(&self) -> Vec<String> {
         vec![
